@@ -264,19 +264,19 @@ def trace_disagreements(ctx, rows, verdict):
     # earlier requests for the same name under that configuration.
     posts, since = {"handler": [], "transport": []}, []
     for i, r in enumerate(rows, 1):
-        if r["k"] == "set":
+        if r["k"] in ("set", "load"):
             if cur is not None:
                 posts[cur["lvl"]].append(cur["conc"])
             cur, since = r, []
         else:
             setline[i] = cur
-            history[i] = [[c["allowed"], c["disallowed"], c["hosts"]] for c in posts[cur["lvl"]][-3:]]
+            history[i] = posts[cur["lvl"]][-3:]
             nm = r["req"]["name"].lower().rstrip(".")
             before[i] = [q for q in since if q["name"].lower().rstrip(".") == nm][-6:]
             since.append(r["req"])
     for i in bad:
         r = rows[i - 1]
-        if r["k"] == "set":
+        if r["k"] in ("set", "load"):
             by_sig.setdefault(("set",), []).append(i)
             continue
         sig = (r["lvl"], r["areq"]["form"], r["areq"]["proto"] in SILENT, r["out"], r.get("plain_out"),
@@ -293,7 +293,10 @@ def trace_disagreements(ctx, rows, verdict):
     res = {"rejected": len(bad), "reproduced": 0, "flaky": 0, "known": 0}
     if ("set",) in by_sig:
         i = by_sig[("set",)][0]
-        ctx.disagreement(None, rows[i - 1], "trace line %d: the API accepted lists that share an item" % i)
+        ln = rows[i - 1]
+        ctx.disagreement(None, ln, "trace line %d (%s): GET /control/access/list does not report the configuration in force "
+                         "(given %s, reported %s), or the API accepted lists that share an item" % (
+                             i, ln["k"], json.dumps(ln["conc"]), json.dumps(ln["reported"])))
     if not steps:
         return res
     ones = run_one(ctx, steps, "trace")
